@@ -53,6 +53,13 @@ NOTES = {
     "C05-r4-2": "only visible after export/import at the pool's end height: caught by C12 (raw store comparison)",
     "C13-r4-1": "needed more than a hundred contracts falling due in one block (expiry burst)",
     "C13-r4-2": "its first run hit a simulator that did not build at that moment (harness edit in progress); re-run",
+    "C18-r4-1": "the left-behind queue entry was only reported under its C13 key (queue hygiene); the property's own words (\"and then disappears from the pending queue\") now also raise `C18/queue/left-behind`",
+    "C18-r4-2": "only visible after export/import at the due height: caught by C12",
+    "C18-r4-3": "only visible after a zero-height export: caught by C12 (`C12/prep-loses/random-request`)",
+    "C02-r4-1": "only visible after export/import: caught by C12",
+    "C04-r4-2": "only visible after export/import: caught by C12 (fixpoint)",
+    "C06-r4-3": "only visible after export/import: caught by C12",
+    "C11-r4-2": "an outcome of process-local state after an out-of-gas inside a callback: on a single node it shows as missing callbacks and feed values, caught by C08 and C17; the replicas of C11 see it only when a restart separates the executions",
     "C16-r4-3": "needed operations that only exist under the new parameter set: the lab now lets the deputy and a user open transfers of every asset the set adds, in the block the set comes into force",
     "C12-r4-3": "reported as missed by a run of the check that was broken at that moment (the random genesis arm registered its requests too late); caught by the raw store comparison",
     "C16-r4-2": "needed the canonical small operations on a fresh chain (overflow by the parameter value alone) and integer values up to 2^250",
